@@ -10,10 +10,13 @@ from . import common
 from . import store_hist as sh
 from .common import Check
 
-RULE = ("deterministic corpus of ill-addressed operations (every write op x {foreign, dead, deleted, live} id x "
+RULE = ("(a) deterministic corpus of ill-addressed operations (every write op x {foreign, dead, deleted, live} id x "
         "{populated, empty, missing} bucket) then seeded random histories of 1-40 ops over 1-3 buckets, half of "
         "them with the malformed stream on; every history is run on memory, sqlite (temp file) and peewee (temp "
-        "file); non-trivial = a run in which a write op was issued while another bucket held events")
+        "file); non-trivial = a run in which a write op was issued while another bucket held events; (b) histories whose "
+        "tail of 2-11 ops (writes to populated buckets interleaved with rejected / raising ops addressed to a missing "
+        "bucket or carrying dead ids) is NOT read back op by op - reads commit on sqlite - with one dump at the end, "
+        "SqliteStorage in its default lazy-commit mode")
 
 
 def main(argv=None):
@@ -70,24 +73,77 @@ def main(argv=None):
             ck.sample({"backend": "peewee", "history": [sh.describe(o) for o in r["peewee"]["ops"][:12]],
                        "results": [s[0] for s in r["peewee"]["steps"][:12]]})
 
+    # --- histories whose tail is NOT read back op by op (a read commits on sqlite, so the stream above
+    #     never has pending writes when a rejected call arrives): one dump at the end
+    n_quiet = 400 if ck.tier == "quick" else 20000
+    qhists = sh.quiet_histories(ck.rng, n_quiet)
+    qresults = sh.run_impl_batch(qhists)
+    for (sym, univ, qf), r in zip(qhists, qresults):
+        for be in sh.BACKENDS:
+            run = r[be]
+            qa = run["quiet_at"]
+            ck.note_case([be, "unread-tail", run["ops"]], nontrivial=True)
+            ck.count(f"{be}:unread-tail-length-{len(run['ops']) - qa:02d}")
+            if qa == 0:
+                continue
+            start = run["steps"][qa - 1][1:]
+            ref = {b: (None if v == [] else sorted(tuple(w[1:]) for w in v[0][1])) for b, v in zip(univ, start)}
+            byid = {b: ({} if v == [] else {w[0][0]: tuple(w[1:]) for w in v[0][1]}) for b, v in zip(univ, start)}
+            meta0 = {b: (None if v == [] else v[0][0]) for b, v in zip(univ, start)}
+            rejected = []
+            for op, step in zip(run["ops"][qa:], run["steps"][qa:]):
+                res = step[0]
+                code = op[0]
+                b = None if code == 3 else op[1]
+                ck.count(f"{be}:unread:{sh.OPNAME[code]}:" + ("ok" if res[0] == 0 else sh.ERRNAME.get(res[1], "err")))
+                if b is None or ref.get(b) is None:
+                    rejected.append(sh.describe(op))
+                    continue
+                if code == 5 and op[2][0] == [] and res[0] == 0:
+                    ref[b].append(tuple(op[2][1:]))
+                elif code == 6 and res[0] == 0:
+                    ref[b].extend(tuple(e[1:]) for e in op[2] if e[0] == [])
+                elif code == 7 and op[2] in byid[b]:
+                    ref[b].remove(byid[b][op[2]])
+                    byid[b][op[2]] = tuple(op[3][1:])
+                    ref[b].append(byid[b][op[2]])
+                elif code == 9 and op[2] in byid[b]:
+                    ref[b].remove(byid[b].pop(op[2]))
+                else:
+                    rejected.append(sh.describe(op))
+            for b, v in zip(univ, run["final"]):
+                got = None if v == [] else sorted(tuple(w[1:]) for w in v[0][1])
+                exp = None if ref[b] is None else sorted(ref[b])
+                gm = None if v == [] else v[0][0]
+                if got != exp or gm != meta0[b]:
+                    ck.failing_input(f"C04:{be}:unread-tail-changes-other-bucket",
+                                     f"{be}: after {len(run['ops']) - qa} ops that were not read back (rejected / "
+                                     f"ill-addressed among them: {rejected[:4]}) bucket {b} holds {got} (meta {gm}), "
+                                     f"its own operations account for {exp} (meta {meta0[b]})",
+                                     {"backend": be, "history": [sh.describe(o) for o in run["ops"]],
+                                      "wire_ops": run["ops"], "universe": univ, "unread_from_op": qa,
+                                      "bucket": b, "expected_events": exp, "observed_events": got,
+                                      "how": "harness.store_hist.run_history(..., quiet_from=...): no read between the ops "
+                                             "from unread_from_op on, one dump at the end; SqliteStorage with the default "
+                                             "enable_lazy_commit=True"})
+                    break
+
     if have_driver:
-        flat = [(be, univ, r[be]["ops"]) for (sym, univ), r in zip(hists, results) for be in sh.BACKENDS]
+        allh = [(h[1], r) for h, r in zip(hists, results)] + [(h[1], r) for h, r in zip(qhists, qresults)]
+        flat = [(be, univ, r[be]["ops"]) for univ, r in allh for be in sh.BACKENDS]
         model = sh.run_model_batch("C04", flat)
         k = 0
-        for (sym, univ), r in zip(hists, results):
+        for univ, r in allh:
             for be in sh.BACKENDS:
                 mo = model[k]
                 k += 1
-                steps = r[be]["steps"]
-                if mo is None or len(mo) != len(steps):
-                    ck.disagreement(be, "driver could not decode the history", {"ops": r[be]["ops"]})
-                    continue
-                for j, (ms, is_) in enumerate(zip(mo, steps)):
-                    if ms != is_:
-                        ck.disagreement(be, f"op {j} {sh.describe(r[be]['ops'][j])}: model and {be} differ",
-                                        {"backend": be, "history": [sh.describe(o) for o in r[be]["ops"][:j + 1]],
-                                         "wire_ops": r[be]["ops"][:j + 1], "universe": univ, "model": ms, "impl": is_})
-                        break
+                d = sh.first_difference(mo, r[be])
+                if d is not None:
+                    j, ms, is_ = d
+                    ck.disagreement(be, f"op {j} {sh.describe(r[be]['ops'][j]) if j >= 0 else ''}: model and {be} differ"
+                                        + (" (history with an unread tail)" if "final" in r[be] else ""),
+                                    {"backend": be, "history": [sh.describe(o) for o in r[be]["ops"][:j + 1]],
+                                     "wire_ops": r[be]["ops"][:j + 1], "universe": univ, "model": ms, "impl": is_})
     ck.assumptions += [
         "strings/data enter the models as labels (0 = the falsy value of its kind); identity time codec",
         "other buckets are observed through the storage API (get_metadata + get_events(-1)), sorted by id",
